@@ -32,6 +32,7 @@ type c18Case struct {
 	Dgram   []byte `json:"datagram,omitempty"`
 	Mcast   bool   `json:"multicast,omitempty"`
 	ReadBuf int    `json:"read_buffer_bytes,omitempty"` // size of the caller-supplied read buffer (frame)
+	Second  bool   `json:"second_socket,omitempty"`     // sent through a client opened while another one is open
 }
 
 func rawParser(b []byte) ([]syscall.NetlinkMessage, error) {
@@ -433,9 +434,27 @@ func c18Run(c *mon.Ctx) {
 	for i := 0; i < c.Pick(1500, 60000); i++ {
 		cases = append(cases, &c18Case{Type: uint16(256 + r.Intn(65536-256)), Flags: uint16(r.Intn(65536)) | uapi.NlmFRequest, Payload: r.Bytes(r.Intn(300))})
 	}
-	for _, k := range cases {
+	// The first netlink socket a process opens for a protocol gets the process id as its port id, later
+	// ones get kernel-assigned ids: most frames go through a SECOND client opened while the first is
+	// still open (the usual control-client + receive-client layout), so "the socket's port id" and
+	// "the process id" differ.
+	cl2, err := libaudit.NewNetlinkClient(syscall.NETLINK_ROUTE, 0, make([]byte, 32768), nil)
+	if err != nil {
+		c.Inconclusive("cannot open a second NETLINK_ROUTE socket: " + err.Error())
+		return
+	}
+	defer cl2.Close()
+	var last2 uint32
+	for i, k := range cases {
 		k.Kind = "frame"
-		c18Frame(c, cl, k, &last)
+		if i%8 == 0 {
+			c18Frame(c, cl, k, &last)
+		} else {
+			k.Second = true
+			if c18Frame(c, cl2, k, &last2) {
+				c.Add("frames_through_a_second_socket", 1)
+			}
+		}
 		c.Add("evaluations", 1)
 		c.Add("frames_echoed", 1)
 		c.DistinctSet("nontrivial").AddString(fmt.Sprintf("%d/%d/%x", k.Type, k.Flags, k.Payload))
@@ -472,6 +491,7 @@ func c18Run(c *mon.Ctx) {
 	c.Require("payload_echoes_compared", 100)
 	c.Require("header_only_echoes", 10)
 	c.Require("replies_filling_the_read_buffer_exactly", 10)
+	c.Require("frames_through_a_second_socket", 100)
 	c.Require("concurrent_sends", 1000)
 	c.Require("spoofed_datagrams_received", 50)
 	c.Require("spoofed_shorter_than_header", 5)
@@ -482,7 +502,7 @@ func c18Run(c *mon.Ctx) {
 func init() {
 	register(&mon.CheckSpec{
 		ID: "C18", Level: "exploration",
-		Rule: "cases = (a,c) requests sent with NetlinkClient.Send on a real NETLINK_ROUTE socket - types 0..15 with NLM_F_ACK (header-only echo) and random types in 256..65535 (never 16..255: live rtnetlink operations), flags = any 16 bits | NLM_F_REQUEST, payload lengths 0..8970 (every 37th quick, every length thorough) plus every length 0..64, random short payloads, and clients whose caller-supplied read buffer the reply fills exactly or with 1/4/64 bytes to spare - whose NLMSG_ERROR reply, read back with Receive, carries the request as the kernel saw it (length, type, flags, port id, sequence = returned value, payload bytes); (b) N in {2,4,16} goroutines x M sends on one client: per-goroutine increasing, globally distinct, and the recorded {call, return, value} history checked with porcupine against a fetch-and-increment model (direct interval check when porcupine gives up); (d) datagrams of every length 0..64 and random longer ones, arbitrary and ACK-shaped contents, unicast and multicast from a second user-space netlink socket (NETLINK_ROUTE as root, NETLINK_USERSOCK): Receive must return an error and no message, and a later kernel reply must still be received; (e) AuditClient.Receive over the simulated Netlink with datagrams of every length 0..64 and random longer ones ending at a PROT_NONE page. Runs under the race detector; ASan in thorough. distinct_nontrivial = distinct frames, spoofed datagrams, parse inputs and sequence histories.",
+		Rule: "cases = (a,c) requests sent with NetlinkClient.Send on a real NETLINK_ROUTE socket - types 0..15 with NLM_F_ACK (header-only echo) and random types in 256..65535 (never 16..255: live rtnetlink operations), flags = any 16 bits | NLM_F_REQUEST, payload lengths 0..8970 (every 37th quick, every length thorough) plus every length 0..64, random short payloads, and clients whose caller-supplied read buffer the reply fills exactly or with 1/4/64 bytes to spare - (most through a second client opened while a first one is open, so the socket's port id differs from the process id) whose NLMSG_ERROR reply, read back with Receive, carries the request as the kernel saw it (length, type, flags, port id, sequence = returned value, payload bytes); (b) N in {2,4,16} goroutines x M sends on one client: per-goroutine increasing, globally distinct, and the recorded {call, return, value} history checked with porcupine against a fetch-and-increment model (direct interval check when porcupine gives up); (d) datagrams of every length 0..64 and random longer ones, arbitrary and ACK-shaped contents, unicast and multicast from a second user-space netlink socket (NETLINK_ROUTE as root, NETLINK_USERSOCK): Receive must return an error and no message, and a later kernel reply must still be received; (e) AuditClient.Receive over the simulated Netlink with datagrams of every length 0..64 and random longer ones ending at a PROT_NONE page. Runs under the race detector; ASan in thorough. distinct_nontrivial = distinct frames, spoofed datagrams, parse inputs and sequence histories.",
 		Assumptions: []string{
 			"the running kernel echoes rejected NETLINK_ROUTE requests in NLMSG_ERROR replies (netlink_ack) and delivers user-to-user netlink datagrams for root; if sockets cannot be opened the check is inconclusive, not green",
 			"message types 16..255 are never sent (they are live rtnetlink operations)",
@@ -512,6 +532,15 @@ func init() {
 					return
 				}
 				defer cl.Close()
+				if k.Second {
+					cl2, err := libaudit.NewNetlinkClient(syscall.NETLINK_ROUTE, 0, make([]byte, k.ReadBuf), nil)
+					if err != nil {
+						fmt.Println("replay:", err)
+						return
+					}
+					defer cl2.Close()
+					cl = cl2
+				}
 				var last uint32
 				c18Frame(c, cl, &k, &last)
 			default:
